@@ -20,7 +20,7 @@ import (
 func init() { families["c20"] = runC20; families["c20child"] = runC20Child }
 
 // Child: logs numbered lines through a synchronous logger and acknowledges every returned call on fd 3.
-// args: <kind file|rolling|console> <layout 0|1> <goroutines> <dir> <exitAfter (0 = run until killed)> <durationMs> [<maxAge hours|-> <padding bytes> <bufferCap>]   (the time zone comes from TZ)
+// args: <kind file|rolling|console|file-ll|rollinglogger> <layout 0|1> <goroutines> <dir> <exitAfter (0 = run until killed)> <durationMs> [<maxAge hours|-> <padding bytes> <bufferCap>]   (the time zone comes from TZ)
 func runC20Child(_ []string, _ *bufio.Writer, args []string) {
 	kind, lay, dir := args[0], args[1] == "1", args[3]
 	ng, _ := strconv.Atoi(args[2])
@@ -39,6 +39,16 @@ func runC20Child(_ []string, _ *bufio.Writer, args []string) {
 		if len(args) > 6 && args[6] != "-" {
 			cfg["appender.a.maxAge"] = args[6]
 		}
+	case "file-ll": // the layout is declared on the LOGGER and the reference has a lower bound: the logger formats, the reference filters bytes by level
+		cfg["appender.a.type"], cfg["appender.a.fileDir"], cfg["appender.a.fileName"] = "File", dir, "a.log"
+		cfg["logger.lg.appenderRef.level"] = "info"
+		cfg["logger.lg.layout.type"] = map[bool]string{false: "TextLayout", true: "JSONLayout"}[lay]
+	case "rollinglogger": // the RollingFile LOGGER plugin with its own layout, a lower bound and the warning split
+		delete(cfg, "logger.lg.appenderRef.ref")
+		cfg["appender.a.type"] = "Discard"
+		cfg["logger.lg.type"], cfg["logger.lg.fileDir"], cfg["logger.lg.fileName"] = "RollingFile", dir, "a.log"
+		cfg["logger.lg.rotation"], cfg["logger.lg.level"], cfg["logger.lg.separate"] = "1s", "info", "true"
+		cfg["logger.lg.layout.type"] = map[bool]string{false: "TextLayout", true: "JSONLayout"}[lay]
 	default:
 		cfg["appender.a.type"] = "Console"
 	}
@@ -47,7 +57,7 @@ func runC20Child(_ []string, _ *bufio.Writer, args []string) {
 		pad, _ = strconv.Atoi(args[7])
 		cfg["bufferCap"] = args[8]
 	}
-	if lay {
+	if lay && kind != "file-ll" && kind != "rollinglogger" {
 		cfg["appender.a.layout.type"] = "JSONLayout"
 	}
 	if err := log.Refresh(cfg); err != nil {
